@@ -190,7 +190,8 @@ impl KalmanState {
                 state: self.state + update_strength * difference,
                 uncertainty: (retained * self.uncertainty * retained.transpose()
                     + update_strength * noise * update_strength.transpose())
-                .symmetrize(),
+                .symmetrize()
+                .clamp_to_covariance(),
                 time: self.time,
             }
             .correct_periodicity(period),
